@@ -297,16 +297,16 @@ func specTable() map[string][]string {
 	tm := func(k int) string { return fmt.Sprintf("a%d:time.V", k) }
 	nv := func(k int) string { return fmt.Sprintf("a%d:num", k) }
 	T := map[string][]string{
-		"+ :: num":         {"a0", "num(" + n(0) + ")"},
-		"+ :: num -> num":  {"num(" + mk("add", n(0), n(1)) + ")"},
-		"+ :: str -> str":  {"str(concat(" + s(0) + "," + s(1) + "))"},
-		"- :: num":         {"num(neg(" + n(0) + "))"},
-		"- :: num -> num":  {"num(sub(" + n(0) + "," + n(1) + "))"},
+		"+ :: num":          {"a0", "num(" + n(0) + ")"},
+		"+ :: num -> num":   {"num(" + mk("add", n(0), n(1)) + ")"},
+		"+ :: str -> str":   {"str(concat(" + s(0) + "," + s(1) + "))"},
+		"- :: num":          {"num(neg(" + n(0) + "))"},
+		"- :: num -> num":   {"num(sub(" + n(0) + "," + n(1) + "))"},
 		"- :: time -> time": {"num(m:time.Duration.Seconds(m:time.Time.Sub(" + tm(0) + "," + tm(1) + ")))"},
-		"* :: num -> num":  {"num(" + mk("mul", n(0), n(1)) + ")"},
-		"/ :: num -> num":  {"num(quo(" + n(0) + "," + n(1) + "))"},
-		"% :: num -> num":  {"num(conv:float64(rem(conv:int64(" + n(0) + "),conv:int64(" + n(1) + "))))"},
-		"^ :: num -> num":  {"num(math.Pow(" + n(0) + "," + n(1) + "))"},
+		"* :: num -> num":   {"num(" + mk("mul", n(0), n(1)) + ")"},
+		"/ :: num -> num":   {"num(quo(" + n(0) + "," + n(1) + "))"},
+		"% :: num -> num":   {"num(conv:float64(rem(conv:int64(" + n(0) + "),conv:int64(" + n(1) + "))))"},
+		"^ :: num -> num":   {"num(math.Pow(" + n(0) + "," + n(1) + "))"},
 
 		"== :: bool -> bool": {"bool(" + mk("eq", b(0), b(1)) + ")"},
 		"!= :: bool -> bool": {"bool(not(" + mk("eq", b(0), b(1)) + "))"},
@@ -515,4 +515,90 @@ func resortTop(s string) string {
 		}
 	}
 	return s
+}
+
+// fnTerms returns a term translator for a function declaration / literal: receiver "r", parameters "p0","p1",...,
+// single-assignment locals inlined.
+func (c *Ctx) fnTerms(fn ast.Node) *termCtx {
+	t := &termCtx{c: c, defs: map[types.Object]ast.Expr{}, names: map[types.Object]string{}}
+	var ft *ast.FuncType
+	switch f := fn.(type) {
+	case *ast.FuncDecl:
+		ft = f.Type
+		if f.Body != nil {
+			t.defs = c.localDefs(f.Body)
+		}
+		if f.Recv != nil {
+			for _, fl := range f.Recv.List {
+				for _, n := range fl.Names {
+					t.names[c.objOf(n)] = "r"
+				}
+			}
+		}
+	case *ast.FuncLit:
+		ft = f.Type
+		t.defs = c.localDefs(f.Body)
+	}
+	if ft != nil {
+		k := 0
+		for _, fl := range ft.Params.List {
+			for _, n := range fl.Names {
+				t.names[c.objOf(n)] = fmt.Sprintf("p%d", k)
+				k++
+			}
+			if len(fl.Names) == 0 {
+				k++
+			}
+		}
+	}
+	return t
+}
+
+// condTerm translates a path condition with its polarity.
+func (t *termCtx) condTerm(pc pathCond) string {
+	s := t.tr(pc.e)
+	if pc.pos {
+		return s
+	}
+	if strings.HasPrefix(s, "not(") {
+		return s[4 : len(s)-1]
+	}
+	// le/lt have exact complements
+	if strings.HasPrefix(s, "lt(") {
+		a := sortedArgsKeep(s[3 : len(s)-1])
+		return "le(" + a[1] + "," + a[0] + ")"
+	}
+	if strings.HasPrefix(s, "le(") {
+		a := sortedArgsKeep(s[3 : len(s)-1])
+		return "lt(" + a[1] + "," + a[0] + ")"
+	}
+	return "not(" + s + ")"
+}
+
+// sortedArgsKeep splits "a,b" at the top-level comma without reordering.
+func sortedArgsKeep(s string) [2]string {
+	d := 0
+	for i, r := range s {
+		switch r {
+		case '(':
+			d++
+		case ')':
+			d--
+		case ',':
+			if d == 0 {
+				return [2]string{s[:i], s[i+1:]}
+			}
+		}
+	}
+	return [2]string{s, ""}
+}
+
+// assertedTerms lists the assertions of a body (util.Assert after canonicalisation) as terms, in source order.
+func (c *Ctx) assertedTerms(fn ast.Node, body ast.Node) (nodes []ast.Node, terms []string) {
+	t := c.fnTerms(fn)
+	for _, a := range c.asserted(body) {
+		nodes = append(nodes, a.node)
+		terms = append(terms, t.tr(a.cond))
+	}
+	return
 }
